@@ -14,6 +14,30 @@ use essential_types::Signature;
 use proptest::prelude::*;
 use serde::{Deserialize, Serialize};
 
+/// secp256k1 group order n (big-endian).
+const ORDER_N: [u8; 32] = [
+    0xFF, 0xFF, 0xFF, 0xFF, 0xFF, 0xFF, 0xFF, 0xFF, 0xFF, 0xFF, 0xFF, 0xFF, 0xFF, 0xFF, 0xFF, 0xFE, 0xBA, 0xAE, 0xDC, 0xE6, 0xAF, 0x48, 0xA0, 0x3B, 0xBF, 0xD2, 0x5E, 0x8C,
+    0xD0, 0x36, 0x41, 0x41,
+];
+
+/// The other valid form of an ECDSA signature: (r, n - s) with the parity bit of the recovery id flipped.
+/// Both forms are well-formed and recover the same key.
+pub fn high_s_twin(sig: &Signature) -> Signature {
+    let mut out = sig.0;
+    let mut borrow = 0i16;
+    for i in (0..32).rev() {
+        let d = ORDER_N[i] as i16 - sig.0[32 + i] as i16 - borrow;
+        if d < 0 {
+            out[32 + i] = (d + 256) as u8;
+            borrow = 1;
+        } else {
+            out[32 + i] = d as u8;
+            borrow = 0;
+        }
+    }
+    Signature(out, sig.1 ^ 1)
+}
+
 fn secret(b: &[u8; 32]) -> SecretKey {
     SecretKey::from_slice(b).unwrap_or_else(|_| SecretKey::from_slice(&[0x11; 32]).unwrap())
 }
@@ -51,6 +75,21 @@ fn oracle_roundtrip(sc: &SigCase, obs: &mut Obs) -> Result<(), Violation> {
         no_panic("check_signed_contract", || essential_check::predicate::check_signed_contract(&signed))?.is_ok(),
         "sig:check-signed-contract",
         "check_signed_contract rejects a correctly signed contract within the limits"
+    );
+    // the (r, n-s) form of the same signature is equally recoverable
+    let twin = SignedContract {
+        contract: contract.clone(),
+        signature: high_s_twin(&signed.signature),
+    };
+    ensure!(
+        no_panic("contract::recover", || essential_sign::contract::recover(&twin))?.ok() == Some(pk),
+        "sig:high-s",
+        "the (r, n-s, id^1) form of the signature does not recover the signer"
+    );
+    ensure!(
+        no_panic("check_signed_contract", || essential_check::predicate::check_signed_contract(&twin))?.is_ok(),
+        "sig:high-s",
+        "check_signed_contract rejects a recoverable (high-S) signature on a valid contract"
     );
     // independent of predicate order
     let mut shuffled = sc.c.clone();
@@ -239,6 +278,20 @@ fn oracle_encodings(ec: &EncCase, obs: &mut Obs) -> Result<(), Violation> {
     let sw = essential_sign::encode::signature(&rsig);
     ensure!(sw[..8] == bytes_to_words(&sig.0)[..] && sw[8] == sig.1 as i64, "sig:sig-encoding", "encode::signature is not [8 BE words of the compact signature, recovery id]");
     ensure!(essential_sign::encode::signature_as_bytes(&rsig)[..] == words_to_bytes(&sw)[..], "sig:sig-bytes", "signature_as_bytes is not the BE bytes of the words");
+    // the same through the high-S form: encodes to different words, decodes back, and the VM recovers the same key
+    {
+        let hs = high_s_twin(&sig);
+        let hrid = RecoveryId::try_from(hs.1 as i32).map_err(|e| viol!("sig:id-range", "{e}"))?;
+        let hrsig = RecoverableSignature::from_compact(&hs.0, hrid).map_err(|e| viol!("sig:high-s-malformed", "{e}"))?;
+        let hw = essential_sign::encode::signature(&hrsig);
+        ensure!(hw[..8] == bytes_to_words(&hs.0)[..] && hw[8] == hs.1 as i64, "sig:sig-encoding", "encode::signature changes a high-S signature: {hw:?}");
+        ensure!(hw != sw, "sig:sig-encoding-not-injective", "the two forms of a signature encode to the same words");
+        let mut case = ExecCase::simple(vec![crate::model::ops::MOp::RSECP]);
+        case.init.stack = bytes_to_words(&ec.digest);
+        case.init.stack.extend(hw);
+        let sum = lockstep(&case, &LockCfg { budget: 10, breadth_cap: 1, record_ops: false }, obs)?;
+        ensure!(sum.failed_at.is_none() && sum.final_state.stack == pkw.to_vec(), "sig:vm-recover-differs", "RecoverSecp256k1 on the high-S form gives {:?}", sum.final_state.stack);
+    }
     // message-level helpers agree with the hash-level ones
     let msg = essential_sign::secp256k1::Message::from_digest(ec.digest);
     ensure!(essential_sign::sign_message(&msg, &sk) == sig, "sig:sign-message", "sign_message and sign_hash disagree");
